@@ -28,8 +28,9 @@ import c19_util as U
 #   "DELE 18446744073709551617" is accepted as DELE 1 (out-of-range number not refused, message destroyed at QUIT)
 #   and "TOP 1 18446744073709551616" sends no body line at all.
 PENDING_FINDINGS = [
-    r"OutOfRangeNotRefused:[A-Z]+_\S*:wrap64",
-    r"TopNotHeaderPlusLines:TOP_\S*:wrap64",
+    # (empty) the scan_ulong wrap-around found while building this check (DELE 2^64+1 destroyed message 1, TOP n 2^64
+    # sent no body) is repaired in /repo ("fix: scan_ulong: saturate ..."); the as-found transcription stays selectable
+    # (ScanWraps = TRUE) and must still be rejected by the model (run "word wraps at 100" below)
 ]
 
 CHECKER = os.path.join(BUILD, "standin_checkpw")
@@ -235,11 +236,11 @@ def main():
     blast_len = 8 if thorough else 6
     cfgb = ck.scratch.path("Pop3Blast.cfg")
     with open(cfgb, "w") as f:
-        f.write("SPECIFICATION Spec\nCONSTANTS\n Alphabet = {10, 13, 46, 120}\n MaxLen = %d\n MaxTop = 3\n WordMod = 0\n"
+        f.write("SPECIFICATION Spec\nCONSTANTS\n Alphabet = {10, 13, 46, 120}\n MaxLen = %d\n MaxTop = 3\n WordMod = 0\n ScanWraps = FALSE\n"
                 "INVARIANT BlastAgrees\nINVARIANT BlastPrefix\nINVARIANT Framed\nINVARIANT Witnessed\n" % blast_len)
     cfgw = ck.scratch.path("Pop3dWrap.cfg")
     with open(cfgw, "w") as f:
-        f.write("SPECIFICATION Spec\nCONSTANTS\n WordMod = 100\nINVARIANT Conforms\n")
+        f.write("SPECIFICATION Spec\nCONSTANTS\n WordMod = 100\n ScanWraps = TRUE\nINVARIANT Conforms\n")
     cfgc = ck.scratch.path("Pop3dCov.cfg")
     models = {}
 
